@@ -739,7 +739,9 @@ def behaviour_archived(tgt, case, first, second):
     with Scratch('km') as root:
         c2 = dict(case)
         c2['deco'] = 'inf'
-        arch = klepto._archives.file_archive(os.path.join(root, 'a.pkl'))
+        import hashlib
+        proto = [None, 0, 1, 2, 4][int(hashlib.md5(repr(first).encode()).hexdigest(), 16) % 5]
+        arch = klepto._archives.file_archive(os.path.join(root, 'a.pkl'), protocol=proto)
         deco = make_deco(c2, cache=klepto.archives.cache(archive=arch))
         g = tgt.decorate(deco)
         tgt.call_through(g, *first)
